@@ -330,4 +330,29 @@ theorem fixed_ord_is_bits_ord (a b : Int) :
   have hb := (to_float_parts_16 b).1
   omega
 
+/-- `impl Neg` and `abs` after `fix:` 7d0f778 never trap (they used to on `i32::MIN`), return the
+mathematical negation / absolute value whenever that is representable, stay in range, and at
+`MIN` wrap to `MIN` (the same convention as `Add`/`Sub`). -/
+theorem neg_total (a : Int) : (neg a).isSome := by simp [neg]
+
+theorem abs_total (a : Int) : (Fixed.abs a).isSome := by simp [Fixed.abs]
+
+theorem neg_exact (a : Int) (h : inI32 a) (hm : a ≠ I32_MIN) : neg a = some (-a) := by
+  unfold inI32 at h; unfold I32_MIN at hm
+  simp only [neg, wrapI32]; congr 1; omega
+
+theorem abs_exact (a : Int) (h : inI32 a) (hm : a ≠ I32_MIN) : Fixed.abs a = some (iabs a) := by
+  unfold inI32 at h; unfold I32_MIN at hm
+  simp only [Fixed.abs, wrapI32, iabs]; congr 1; split <;> omega
+
+theorem neg_min : neg I32_MIN = some I32_MIN := by decide
+
+theorem abs_min : Fixed.abs I32_MIN = some I32_MIN := by decide
+
+theorem neg_involutive (a : Int) (h : inI32 a) : (neg a).bind neg = some a := by
+  unfold inI32 at h
+  simp only [neg, Option.bind, wrapI32]; congr 1; omega
+
+example : neg (-98304) = some 98304 ∧ Fixed.abs (-98304) = some 98304 := by decide
+
 end FontVerif.C15
